@@ -22,7 +22,7 @@ func writeRec(c *Ctx, d Doc, fl Flags, tracks int, alsoSingle bool, extra ...str
 		"division": f.Division, "ntracks": f.NTracks, "ev": eventsOf(f), "smfErr": f.Err,
 		"ok1": true, "ev1": [][]any{}, "refDivision": refDivision(c),
 		// a clean refusal: a message, a non-zero status, no output
-		"refused": r.Exit > 0 && !r.TimedOut && !r.Panic && len(r.Stdout) == 0 && len(r.Stderr) > 0}
+		"refused": r.Exit > 0 && !r.TimedOut && !r.Panic} // (a refusal is a failing run; how it looks is C09's business)
 	if alsoSingle {
 		args1 := append(append([]string{"write", "--track", "1"}, fl.Args()...), extra...)
 		r1 := c.crd(args1, d.YAML())
@@ -35,14 +35,14 @@ func writeRec(c *Ctx, d Doc, fl Flags, tracks int, alsoSingle bool, extra ...str
 
 // absurdRec: one instance of `digits` beats (far beyond anything a delta time can hold) between two ordinary chords
 func absurdRec(c *Ctx, digits string, rest bool, tracks int) Rec {
-	inst := "- chord: {name: MajorTriad, degree: \"1\"}\n  values: [\"" + digits + "\"]\n"
+	inst := "- chord: {name: \"\", degree: \"1\"}\n  values: [\"" + digits + "\"]\n"
 	if rest {
 		inst = "- values: [\"" + digits + "\"]\n"
 	}
-	y := "- chord: {name: MajorTriad, degree: \"1\"}\n  values: [\"1\"]\n" + inst + "- chord: {name: MajorTriad, degree: \"5\"}\n  values: [\"1\"]\n"
+	y := "- chord: {name: \"\", degree: \"1\"}\n  values: [\"1\"]\n" + inst + "- chord: {name: \"\", degree: \"5\"}\n  values: [\"1\"]\n"
 	r := c.crd([]string{"write", "--track", fmt.Sprint(tracks)}, []byte(y))
-	return Rec{"kind": "absurd", "sub": fmt.Sprint(digits, rest, tracks), "digits": chars(digits), "rest": rest, "tracks": tracks, "exit": r.Exit, "stdoutLen": len(r.Stdout), "stderrLen": len(r.Stderr),
-		"refused": r.Exit > 0 && !r.TimedOut && !r.Panic && len(r.Stdout) == 0 && len(r.Stderr) > 0}
+	return Rec{"kind": "absurd", "sub": fmt.Sprint(digits, rest, tracks), "digits": chars(digits), "rest": rest, "tracks": tracks, "exit": r.Exit, "stdoutLen": len(r.Stdout), "stderrLen": len(r.Stderr), "refDivision": refDivision(c),
+		"refused": r.Exit > 0 && !r.TimedOut && !r.Panic} // (a refusal is a failing run; how it looks is C09's business)
 }
 
 // refDivision: the ticks per quarter note the binary under test declares, read off one small file (a refused run has no
@@ -157,7 +157,7 @@ func init() {
 			rng := rand.New(rand.NewSource(c.Seed))
 			cases := []Case{}
 			degs := allIntervalNotations(15)
-			syms := []string{"", "m7", "dim7", "augM7", "maj9", "SeventhSuspendedFourth"}
+			syms := []string{"", "m7", "dim7", "augM7", "maj9", longNameOf("7sus4")}
 			basses := []string{"1", "3", "b3", "5", "bb5", "#5", "b7", "8", "##4", "bbb7", "10", "b13"}
 			nh := 300
 			if !c.quick() {
